@@ -498,8 +498,9 @@ def abbreviate(spec):
 # mixed portfolios (any asset type) - C01, C03, C04, C07, C09, ...
 # ------------------------------------------------------------------------------------------------
 COARSE_OF = {'15min': ['h', '2h'], '30min': ['h', '2h'], 'h': ['2h', '4h', 'd'], '2h': ['4h', 'd'], '4h': ['d'], 'd': ['2d', '3d', '7d']}
-PERIOD_OF = {'15min': [('h', None), ('2h', '4h')], '30min': [('2h', None), ('4h', 'd')], 'h': [('4h', None), ('d', None), ('4h', 'd'), ('6h', 'd')],
-             '2h': [('d', None), ('8h', 'd')], '4h': [('d', None), ('d', '2d')]}
+PERIOD_OF = {'15min': [('h', None), ('2h', '4h')], '30min': [('2h', None), ('4h', 'd'), ('2h', '8h')],
+             'h': [('4h', None), ('d', None), ('4h', 'd'), ('6h', 'd'), ('4h', '12h'), ('6h', '24h'), ('4h', '1d')],
+             '2h': [('d', None), ('8h', 'd'), ('4h', '12h'), ('8h', '24h')], '4h': [('d', None), ('d', '2d'), ('1d', '2d')]}       # (durations as bare units and as multiples)
 
 ALL_KINDS = ('contract', 'transport', 'storage', 'multi', 'orderbook', 'plant', 'chp', 'scaled', 'structured', 'coarse', 'periodic',
              'storage_mip', 'storage_blocks', 'linked', 'chp_minload')
